@@ -521,6 +521,35 @@ m("c15-mut-run-clears-ranks", "C15", "for_each_concurrent_mut clears the ranks o
         } = self;
 
         let StreamSetupInitConcurrent {""", 1))
+m("c15-cell-in-edge-counts", "C15", "EdgeCounts gains an interior-mutable hit counter (positive control for the deep-immutability walk)",
+  ("src/edge_counts.rs", """    /// Number of outgoing (child) edges.
+    outgoing: Vec<usize>,
+}""", """    /// Number of outgoing (child) edges.
+    outgoing: Vec<usize>,
+    /// Number of times the counts were read.
+    hits: std::cell::Cell<usize>,
+}""", 1),
+  ("src/edge_counts.rs", "Self { incoming, outgoing }", "Self { incoming, outgoing, hits: std::cell::Cell::new(0) }", 1))
+m("c20-cell-in-edge-counts", "C20", "EdgeCounts gains an interior-mutable hit counter",
+  ("src/edge_counts.rs", """    /// Number of outgoing (child) edges.
+    outgoing: Vec<usize>,
+}""", """    /// Number of outgoing (child) edges.
+    outgoing: Vec<usize>,
+    /// Number of times the counts were read.
+    hits: std::cell::Cell<usize>,
+}""", 1),
+  ("src/edge_counts.rs", "Self { incoming, outgoing }", "Self { incoming, outgoing, hits: std::cell::Cell::new(0) }", 1))
+m("c20-unsafe-static-scratch", "C20", "a static mut scratch buffer shared by all runs",
+  (FG, """    fns_no_predecessors_preload(graph_structure, &predecessor_counts, &fn_ready_tx);
+
+    StreamSetupInit {""", """    static mut LAST_CAPACITY: usize = 0;
+    #[allow(static_mut_refs)]
+    unsafe {
+        LAST_CAPACITY = channel_capacity;
+    }
+    fns_no_predecessors_preload(graph_structure, &predecessor_counts, &fn_ready_tx);
+
+    StreamSetupInit {""", 1))
 # ---- C16 ----------------------------------------------------------------
 m("c16-args-swapped", "C16", "add_contains_edge passes (to, from)",
   (BLD, ".update_edge(function_from, function_to, Edge::Contains)", ".update_edge(function_to, function_from, Edge::Contains)", 1))
